@@ -668,10 +668,20 @@ asn1c_lang_C_type_SET_def(arg_t *arg) {
 		if(tag2el_cxer) free(tag2el_cxer);
 		return -1;
 	}
-	if(tag2el_cxer_count == tag2el_count
-	&& memcmp(tag2el, tag2el_cxer, tag2el_count) == 0) {
-		free(tag2el_cxer);
-		tag2el_cxer = 0;
+	if(tag2el_cxer_count == tag2el_count) {
+		int same = 1, ti;
+		for(ti = 0; ti < tag2el_count; ti++) {
+			if(tag2el[ti].el_tag.tag_class != tag2el_cxer[ti].el_tag.tag_class
+			|| tag2el[ti].el_tag.tag_value != tag2el_cxer[ti].el_tag.tag_value
+			|| tag2el[ti].el_no != tag2el_cxer[ti].el_no) {
+				same = 0;
+				break;
+			}
+		}
+		if(same) {
+			free(tag2el_cxer);
+			tag2el_cxer = 0;
+		}
 	}
 
 	GEN_INCLUDE_STD("constr_SET");
